@@ -459,6 +459,18 @@ func (e *env) addAll(q int, specs []itemSpec) *batch {
 		s.tAddCall = c.tCall
 	}
 	b.h = e.qs[q].addAll(items)
+	switch g := b.h.(type) {
+	case *resultGroupJob[int, int]:
+		vt.Mark("batch:wgc", g.wgc, strconv.Itoa(b.idx))
+		vt.Mark("batch:resp", g.Response, strconv.Itoa(b.idx))
+		vt.Mark("batch:chan", g.Response.Read(), strconv.Itoa(b.idx))
+	case *errorGroupJob[int]:
+		vt.Mark("batch:wgc", g.wgc, strconv.Itoa(b.idx))
+		vt.Mark("batch:resp", g.Response, strconv.Itoa(b.idx))
+		vt.Mark("batch:chan", g.Response.Read(), strconv.Itoa(b.idx))
+	case *groupJob[int]:
+		vt.Mark("batch:wgc", g.wgc, strconv.Itoa(b.idx))
+	}
 	c.ret("")
 	b.tRet = c.tRet
 	for _, s := range b.items {
